@@ -426,7 +426,7 @@ let run_history_case c =
        | ParseOk ast ->
          let m0 = { stk = []; menv = e.eenv; trace = []; polls = mc.mctx } in
          if mc.mctx <> None || mc.mprog.pmain = [] then "na" else   (* VM.Run refuses an empty program before interpreting anything *)
-         (match sblock stdlib_oracle e.efns ob fuel ast m0 with
+         (match sblock stdlib_oracle e.efns ob (collect_block (nat_of_int 4000) ast []) fuel ast m0 with
           | XNormal m -> Printf.sprintf "ok|n|%s|%s" (enc_trace (List.rev m.trace)) (enc_vars m.menv.globals)
           | XReturn (v, m) -> Printf.sprintf "ok|%s|%s|%s" (enc_value v) (enc_trace (List.rev m.trace)) (enc_vars m.menv.globals)
           | XErr (ENeedOracle, _) | XErr (EFuel, _) -> "na"
